@@ -119,6 +119,7 @@ fn hostile_jitter_spec(rng: &mut Prng) -> Spec {
     let (clock, marks) = gen_clock(rng, &ClockCfg { n: (est * 5 / 4 + 16).min(30_000), faults, rate_per_1000: rate, max_stretch: 3 , long_stuck: false});
     spec.clock = Some(clock);
     spec.aux = encode_marks(&marks);
+    spec.logger = rng.chance(1, 4);
     spec
 }
 
